@@ -53,7 +53,16 @@ def main():
     limit = int(os.environ.get("VERIF_WATCHDOG_S") or (2400 if tier == "quick" else 6 * 3600))
 
     def on_alarm(_sig, _frm):
-        raise TimeoutError(f"the check did not finish within {limit} s (an implementation call or a model evaluation does not terminate?)")
+        # report and leave at once: an exception raised here could be swallowed by a broad "except" around an implementation call (it was: seeded
+        # changes C09/m and C01/m made a search run forever, the TimeoutError was taken for an error of that call and the check went on for hours)
+        msg = f"the check did not finish within {limit} s (an implementation call or a model evaluation does not terminate?)"
+        try:
+            ctx.tie_break("watchdog: " + msg)
+            ctx.violation("correspondence", "harness could not complete: " + msg, {"watchdog_s": limit}, False)
+            ctx.finish()
+            sys.stdout.flush()
+        finally:
+            os._exit(1)
     signal.signal(signal.SIGALRM, on_alarm)
     signal.alarm(limit)
     try:
